@@ -91,13 +91,18 @@ func tarTypeToFsType(tarType byte) (_ fs.Type, skipMe error) {
 		return fs.Type_CharDevice, nil
 	case tar.TypeBlock:
 		return fs.Type_Device, nil
-	case tar.TypeDir:
+	case tar.TypeDir, 'D':
+		// ('D' is a directory in a GNU incremental archive (`tar -g`); its body, the listing GNU tar keeps for
+		//  the next incremental run, is skipped like any body we do not ask for.)
 		return fs.Type_Dir, nil
 	case tar.TypeFifo:
 		return fs.Type_NamedPipe, nil
 	// Notice that tar does not have a type for socket files
 	case tar.TypeXGlobalHeader:
 		return fs.Type_Invalid, fmt.Errorf("tar type 'g' header entries ignored")
+	case 'V':
+		// A GNU volume label (`tar -V NAME`): a header that names the archive, not an entry of the fileset.
+		return fs.Type_Invalid, fmt.Errorf("tar type 'V' volume label ignored")
 	default:
 		return fs.Type_Invalid, nil
 	}
